@@ -2,7 +2,7 @@
 import z3
 
 from fjvc.core import family
-from fjvc.interp import Obj
+from fjvc.interp import Obj, obj_fields as obj_fields_
 from fjvc.values import SV, lift, to_real, R
 
 from .abstract import AbsBij, AbsDist, TV, T, BIJ, DIST, KEY, F, G, LD, LP, S, NONE, B_instances
@@ -191,6 +191,11 @@ class Reparam:
         if not it.truth(SV(e > 0)):
             raise PyRaise("EquinoxRuntimeError", "Non-finite value(s) introduced when reparameterizing")
         self.value = arr
+        from fjvc.interp import obj_class as _oc
+        try:
+            self.bij_name = _oc(bijection).__name__
+        except Exception:  # noqa: BLE001
+            self.bij_name = type(bijection).__name__
 
 
 ctx_interp = [None]
@@ -302,6 +307,38 @@ def location_scale(ctx):
                 ctx.control(f"C05/{cname}/control/swapped_loc_scale#{i}", pl[0].value.t == (LOGPDF[fam]((x.e - scale.e) / loc.e) if fam else x.e) - log_(loc.e), hyp + pl[0].cond + [loc.e > 0], props, fn=q)
             else:
                 ctx.oblige(f"C05/{cname}/struct/log_prob_is_sum#{i}", False, [], props, kind="struct", fn=q)
+    # StudentT(df, loc, scale): _StandardStudentT(df) pushed through Affine(loc, scale); df stays positive for every raw value
+    cls = it.repo_class(f"{MOD}.StudentT")
+    dfv = ev("df")
+    q = f"{MOD}.StudentT"
+    it.lib.overrides["jax.numpy.broadcast_arrays"] = lambda *a: tuple(a)
+    rp = dict(kind="c05", cls="StudentT", vars=dict(df=dfv.e, loc=loc.e, scale=scale.e, x=x.e))
+    succ = 0
+    for i, p in enumerate(_run_ctor(it, cls, dfv, loc, scale)):
+        if p.outcome == "raise":
+            ctx.oblige(f"C11/StudentT.__init__/post/rejects_only_nonpositive_df_or_scale#{i}", z3.Or(dfv.e <= 0, scale.e <= 0), p.cond, props, fn=q + ".__init__", replay=rp)
+            continue
+        succ += 1
+        d = p.value
+        from fjvc.interp import obj_class
+        ctx.oblige(f"C11/StudentT.__init__/post/accepts_only_positive_df_and_scale#{i}", z3.And(dfv.e > 0, scale.e > 0), p.cond, props, fn=q + ".__init__", replay=rp)
+        ctx.oblige(f"C05/StudentT.__init__/struct/base_family#{i}", obj_class(d.base_dist).__name__ == "_StandardStudentT" and obj_class(d.bijection).__name__ == "Affine", [], props, kind="struct", fn=q + ".__init__")
+        ctx.oblige(f"C05/StudentT.__init__/post/reproduces_df_loc_scale#{i}", z3.And(lift(d.df) == dfv.e, lift(d.loc) == loc.e, lift(d.scale) == scale.e), p.cond, props, fn=q + ".__init__", replay=rp,
+                   rounds=3, extra_terms=[exp_(dfv.e), exp_(lift(d.df))])
+        ub = Obj(obj_class(d.bijection), loc=d.bijection.loc, scale=unwrap(d.bijection.scale), shape=d.bijection.shape)
+        ubase = Obj(obj_class(d.base_dist), df=unwrap(d.base_dist.df), shape=d.base_dist.shape)
+        ud = Obj(obj_class(d), base_dist=ubase, bijection=ub)
+        pl = it.explore(lambda: method(tcls, "_log_prob")(ud, x, None))
+        if len(pl) == 1 and pl[0].outcome == "return" and isinstance(pl[0].value, SumT):
+            z = (x.e - loc.e) / scale.e
+            ctx.oblige(f"C05/StudentT/post/textbook_log_density#{i}", pl[0].value.t == LOGPDF_T(z, lift(unwrap(d.base_dist.df))) - log_(scale.e), p.cond + pl[0].cond, props, fn=f"{MOD}.AbstractTransformed._log_prob", replay=rp)
+        else:
+            ctx.oblige(f"C05/StudentT/struct/log_prob_is_sum#{i}", False, [], props, kind="struct", fn=q)
+        # whatever value the raw df array later takes, the unwrapped df is strictly positive: df is held by
+        # BijectionReparam(., SoftPlus()), whose unwrap is positive for every raw value (C11/BijectionReparam.unwrap/post/positive_for_every_raw_value)
+        dfw = d.base_dist.df
+        ctx.oblige(f"C11/StudentT/struct/df_held_by_softplus_reparam#{i}", isinstance(dfw, Reparam) and getattr(dfw, "bij_name", None) == "SoftPlus", [], props, kind="struct", fn=f"{MOD}._StandardStudentT.__init__")
+    ctx.oblige("C11/StudentT.__init__/struct/has_success_path", succ >= 1, [], props, kind="struct", fn=q + ".__init__")
     # Uniform(minval, maxval): loc = minval, scale = maxval - minval
     cls = it.repo_class(f"{MOD}.Uniform")
     a, b = ev("minval"), ev("maxval")
@@ -516,7 +553,8 @@ def vectorize_glue(ctx):
             return "out"
 
     expect = {"_log_prob": ([S], [()]), "_sample": ([(2,)], [S]), "_sample_and_log_prob": ([(2,)], [S, ()])}
-    for cname, cs in (("conditional", C), ("unconditional", None)):
+    C2 = (SV(z3.Int("dim_c0")), SV(z3.Int("dim_c1")))
+    for cname, cs in (("conditional", C), ("unconditional", None), ("conditional_scalar", ()), ("conditional_rank2", C2)):
         self = Obj(cls, shape=S, cond_shape=cs)
         for mname, (ins, outs) in expect.items():
             m = M(mname, ["a0", "condition"])
@@ -527,9 +565,9 @@ def vectorize_glue(ctx):
                 continue
             want_in = list(ins) + ([cs] if cs is not None else [])
             ok_sig = rec.get("signature") == ("sig", tuple(want_in), tuple(outs))
-            ctx.oblige(f"C06/_vectorize[{cname},{mname}]/post/core_shapes", ok_sig, [], props, kind="struct", fn=fnq, note=f"signature {rec.get('signature')}")
+            ctx.oblige(f"C06/_vectorize[{cname},{mname}]/post/core_shapes", ok_sig, [], props, kind="struct", fn=fnq, note=f"signature {rec.get('signature')}", replay=dict(kind="c06", vars={}))
             ok_ex = rec.get("excluded") == (frozenset() if cs is not None else frozenset([1]))
-            ctx.oblige(f"C06/_vectorize[{cname},{mname}]/post/condition_excluded_iff_unconditional", ok_ex, [], props, kind="struct", fn=fnq)
+            ctx.oblige(f"C06/_vectorize[{cname},{mname}]/post/condition_excluded_iff_unconditional", ok_ex, [], props, kind="struct", fn=fnq, replay=dict(kind="c06", vars={}))
             # per-element shape check of the wrapped method
             wrapped = rec.get("f")
 
@@ -549,9 +587,9 @@ def vectorize_glue(ctx):
             ps = it.explore(lambda: wrapped(*args))
             for i, q_ in enumerate(ps):
                 if q_.outcome == "raise":
-                    ctx.oblige(f"C13/_vectorize._check_shapes[{cname},{mname}]/post/raises_only_if#{i}", z3.And(bad, z3.BoolVal(q_.value.exc == "ValueError")), q_.cond, props, fn=fnq + "._check_shapes")
+                    ctx.oblige(f"C13/_vectorize._check_shapes[{cname},{mname}]/post/raises_only_if#{i}", z3.And(bad, z3.BoolVal(q_.value.exc == "ValueError")), q_.cond, props, fn=fnq + "._check_shapes", replay=dict(kind="c06", vars={}))
                 else:
-                    ctx.oblige(f"C13/_vectorize._check_shapes[{cname},{mname}]/post/accepts_only_matching_trailing_dims#{i}", z3.Not(bad), q_.cond, props, fn=fnq + "._check_shapes")
+                    ctx.oblige(f"C13/_vectorize._check_shapes[{cname},{mname}]/post/accepts_only_matching_trailing_dims#{i}", z3.Not(bad), q_.cond, props, fn=fnq + "._check_shapes", replay=dict(kind="c06", vars={}))
 
 
 _NAMES = {}
